@@ -168,5 +168,8 @@ func StructuredLexInputs() []string {
 	for _, body := range []string{"x\n\u3000a\n b", "\n\u00a0a\n\tb\n  c", "x\n\u2003\u2003a\n\u2003b\n c", "\n  \u3000a\n  b\n", "x\n\u00a0\n \u00a0y", "\n\u3000a\n\u3000b\n", "\n \u2028a\n \u0085b"} {
 		out = append(out, "\"\"\""+body+"\"\"\" y")
 	}
+	// a block string with one very long line (beyond the 64 KiB buffer of a line scanner), first, in the middle, last
+	long := rep("x", 66000)
+	out = append(out, "\"\"\"\n  a\n  "+long+"\n  b\n\"\"\" y", "\"\"\""+long+"\n  b\"\"\"", "\"\"\"\n  a\n "+long+"\"\"\"")
 	return out
 }
